@@ -176,11 +176,21 @@ def exact_records(rnd, tier):
             recs.append(dict(kind="exact", model="convection", name="upwind", par=core.rat(a), L=[core.rat(x)], R=[core.rat(y)],
                              flux=[q for q, _ in rr], err=[e for _, e in rr], upwindflux=1, small=1))
     m = make("burgers", F(1))
-    for (x, y) in itertools.product(vals + [F(1), F(-1)], vals + [F(1), F(-1)]):
+    for (x, y) in itertools.product(vals + [F(1), F(-1), F(3), F(-3)], vals + [F(1), F(-1), F(3), F(-3)]):
         fl = one(m, None, [float(x)], [float(y)])
         rr = [rationalise(v) for v in fl]
         recs.append(dict(kind="exact", model="burgers", name="upwind", par=[1, 1], L=[core.rat(x)], R=[core.rat(y)],
                          flux=[q for q, _ in rr], err=[e for _, e in rr], upwindflux=1, small=1))
+        if x.denominator == 1 and y.denominator == 1:
+            # whole-number states handed over as INTEGER arrays (np.where(x < x0, 3, 1) builds such data): the same flux
+            try:
+                with np.errstate(all="ignore"):
+                    out = m.numflux(None, [np.array([int(x)])], [np.array([int(y)])])
+                rr = [rationalise(float(np.asarray(o, dtype=float)[0])) for o in out]
+                recs.append(dict(kind="exact", model="burgers", name="upwind", par=[1, 1], L=[core.rat(x)], R=[core.rat(y)],
+                                 flux=[q for q, _ in rr], err=[e for _, e in rr], upwindflux=1, small=1, dtype="int"))
+            except Exception as ex:
+                recs.append(dict(kind="raised", what=str(ex)[:100], model="burgers", name="upwind"))
     return recs
 
 
